@@ -281,9 +281,6 @@ class Checker:
                 if got[c] != exp:
                     self.bad("OversamplingWrapper", "class_balance_wrong", dict(mode=mode),
                              f"class {c}: {got[c]} entries, documented {exp}; ids {ids}", f"|{mode}")
-                per = [ids.count(i) for i in range(n) if lay[i] == c]
-                if max(per) - min(per) > 1:
-                    self.bad("OversamplingWrapper", "uneven_reuse", dict(mode=mode), f"class {c} reuse counts {per}", f"|{mode}")
 
     def sort_by_class(self):
         n, lay = self.n, self.layout
